@@ -225,6 +225,12 @@ def auto_accept(body, kind, bb):
         for g in cmp_guards(body, bb):
             if g['op'] == 'Le' and na and g['l'].atoms == na and 'len' in g['r'].flags and not g['l'].has_arith():
                 return 'range bound dominated by n <= len'
+    if kind in ('panic', 'assert'):
+        # an assertion restating what the type says: `assert!(n >= 1)` / `n > 0` / `n != 0` on n = NonZero::get()
+        for g in cmp_guards(body, bb):
+            if 'nz_get' in g['l'].flags and not g['l'].has_arith() and not g['r'].params() and not g['r'].fields and not g['r'].call_names() and \
+                    ((g['op'] == 'Lt' and g['r'].consts() == {1}) or (g['op'] in ('Le', 'Eq') and g['r'].consts() == {0})):
+                return 'failure arm of an assertion that NonZero::get() is at least 1'
     if kind == 'split_at':
         no = origin(body, t['args'][1])
         for g in cmp_guards(body, bb):
@@ -243,6 +249,9 @@ def run(ctx):
     matcher = ReviewedMatcher('C04', PANIC_REVIEWED, {short_fn(fn_label(b)) for b in scope})
     ctx.panic_matcher = matcher
     used = matcher.used
+    # (kinds of site each function of the scope still has: a reviewed entry is lent to a renamed function only when the
+    # function it was reviewed under has no such site any more)
+    matcher.site_kinds = {(short_fn(fn_label(b)), k_) for b in scope for k_, _, _, _ in panic_sites(b)}
     for b in scope:
         ctx.touched(b, len(b.calls()))
         for kind, bb, loc_, txt in panic_sites(b):
